@@ -672,6 +672,17 @@ class Extractor:
         self.escaped.add(name)
         self.escaped_in.setdefault(name, set()).add(self.short(f.module))
 
+    @staticmethod
+    def computed_codec(name, node):
+        """`x.encode(enc)` / `x.decode(enc)` with a codec name that is not a string literal: the codec
+        lookup imports `encodings.<name>` and calls every registered codec search function with it"""
+        if name not in ("encode", "decode") or not isinstance(node, ast.Call):
+            return False
+        enc = node.args[0] if node.args else next((k.value for k in node.keywords if k.arg == "encoding"), None)
+        if any(isinstance(a, ast.Starred) for a in node.args) or any(k.arg is None for k in node.keywords):
+            return True
+        return enc is not None and not (isinstance(enc, ast.Constant) and isinstance(enc.value, str))
+
     def use(self, f, targets, call, node=None):
         """edges from body f for a resolved reference; call=True for call position"""
         src = f.qual
@@ -705,6 +716,8 @@ class Extractor:
                 self.edge(src, self.leaf(f"out-of-scope:{t[1]}", m))
             elif k == "extmethod":
                 self.edge(src, self.leaf(f"method:{t[1]}", classify_method(t[1])))
+                if call and self.computed_codec(t[1], node):
+                    self.edge(src, self.leaf(f"method:{t[1]}-with-computed-codec-name", EFFECTFUL))
             elif k == "byname":
                 internal = self.by_name(t[1])
                 for it in internal:
@@ -716,6 +729,8 @@ class Extractor:
                 if call:
                     if t[1] in METHODS or not internal:
                         self.edge(src, self.leaf(f"method:{t[1]}", classify_method(t[1])))
+                    if self.computed_codec(t[1], node):
+                        self.edge(src, self.leaf(f"method:{t[1]}-with-computed-codec-name", EFFECTFUL))
                 elif METHODS.get(t[1]) == EFFECTFUL:
                     self.edge(src, self.leaf(f"method:{t[1]}", EFFECTFUL))
             elif k in ("self", "super", "data", "unk"):
